@@ -845,3 +845,46 @@ package thrift
 //@           istype(ret, *ApplicationException) && astype(ret, *ApplicationException).t == err.$typeid && astype(ret, *ApplicationException).m == prepend + err.$errtext
 //@   ensures !istype(err, *TransportException) && !istype(err, *ProtocolException) && !istype(err, *ApplicationException) && !istype(err, tException) ==>
 //@           !istype(ret, *TransportException) && !istype(ret, *ProtocolException) && !istype(ret, *ApplicationException) && !istype(ret, tException) && ret.$errtext == prepend + err.$errtext
+
+// ---- skip decoders: the generic skipper over SkipDecoderIface ----
+// Ghost view of a SkipDecoderIface handle: $u the unread stream, $taken bytes taken so far.
+
+//@ ghost $taken int
+
+//@ pred tkUsed(d) = d.$taken - old(d.$taken)
+
+//@ iface SkipDecoderIface.SkipN
+//@   params n
+//@   results buf, err
+//@   requires n >= 0
+//@   ensures (err == nil) == (n <= len(old(self.$u)))
+//@   ensures err == nil ==> len(buf) == n && eqbytes(buf, 0, old(self.$u), 0, n) && same(self.$u, old(self.$u)[n:]) && self.$taken == old(self.$taken) + n
+//@   assigns self.$u, self.$taken
+
+//@ func SkipDecoderTpl.Skip
+//@   arith int
+//@   props C02, C03, C08, C17
+//@   requires 0 <= maxdepth && maxdepth <= 64
+//@   let U = p.r.$u
+//@   let Rlo = maxdepth == 0 ? -3 : vs.ValLenD(U, t, maxdepth - 1)
+//@   let Rhi = maxdepth == 0 ? -3 : vs.ValLenD(U, t, maxdepth)
+//@   hint[g:hi] vs.LemmaFixedElems(U[5:], int8(U[0]), int(int32(vs.BE32(U, 1))), maxdepth)
+//@   hint[g:hi] vs.LemmaFixedPairs(U[6:], int8(U[0]), int8(U[1]), int(int32(vs.BE32(U, 2))), maxdepth)
+//@   hint[g:lo] vs.LemmaFixedElems(U[5:], int8(U[0]), int(int32(vs.BE32(U, 1))), maxdepth - 1)
+//@   hint[g:lo] vs.LemmaFixedPairs(U[6:], int8(U[0]), int8(U[1]), int(int32(vs.BE32(U, 2))), maxdepth - 1)
+//@   ensures[g:hi] ret == nil ==> Rhi >= 0 && same(p.r.$u, U[Rhi:]) && tkUsed(p.r) == Rhi
+//@   ensures[g:lo] Rlo != -3 ==> (Rlo >= 0 ==> ret == nil && same(p.r.$u, U[Rlo:]) && tkUsed(p.r) == Rlo) && (Rlo < 0 ==> ret != nil) && (Rlo == -2 ==> ret == errNegativeSize)
+//@   assigns p.r.$u, p.r.$taken
+//@   decreases maxdepth
+//@   loop 1 invariant 0 <= tkUsed(p.r) && tkUsed(p.r) <= len(U) && same(p.r.$u, U[tkUsed(p.r):])
+//@   loop 1 invariant[g:hi] vs.FieldsLenD(U, maxdepth) == vs.Then(tkUsed(p.r), vs.FieldsLenD(p.r.$u, maxdepth))
+//@   loop 1 invariant[g:lo] maxdepth > 1 && vs.FieldsLenD(U, maxdepth - 1) != -3 ==> vs.FieldsLenD(U, maxdepth - 1) == vs.Then(tkUsed(p.r), vs.FieldsLenD(p.r.$u, maxdepth - 1))
+//@   loop 1 decreases len(p.r.$u)
+//@   loop 2 invariant 0 <= i && i <= sz && 6 <= tkUsed(p.r) && tkUsed(p.r) <= len(U) && same(p.r.$u, U[tkUsed(p.r):])
+//@   loop 2 invariant[g:hi] vs.PairsLenD(U[6:], kt, vt, int(sz), maxdepth) == vs.Then(tkUsed(p.r) - 6, vs.PairsLenD(p.r.$u, kt, vt, int(sz - i), maxdepth))
+//@   loop 2 invariant[g:lo] maxdepth > 1 && vs.PairsLenD(U[6:], kt, vt, int(sz), maxdepth - 1) != -3 ==> vs.PairsLenD(U[6:], kt, vt, int(sz), maxdepth - 1) == vs.Then(tkUsed(p.r) - 6, vs.PairsLenD(p.r.$u, kt, vt, int(sz - i), maxdepth - 1))
+//@   loop 2 decreases int(sz - i)
+//@   loop 3 invariant 0 <= i && i <= sz && 5 <= tkUsed(p.r) && tkUsed(p.r) <= len(U) && same(p.r.$u, U[tkUsed(p.r):])
+//@   loop 3 invariant[g:hi] vs.ElemsLenD(U[5:], vt, int(sz), maxdepth) == vs.Then(tkUsed(p.r) - 5, vs.ElemsLenD(p.r.$u, vt, int(sz - i), maxdepth))
+//@   loop 3 invariant[g:lo] maxdepth > 1 && vs.ElemsLenD(U[5:], vt, int(sz), maxdepth - 1) != -3 ==> vs.ElemsLenD(U[5:], vt, int(sz), maxdepth - 1) == vs.Then(tkUsed(p.r) - 5, vs.ElemsLenD(p.r.$u, vt, int(sz - i), maxdepth - 1))
+//@   loop 3 decreases int(sz - i)
